@@ -239,7 +239,8 @@ EngineRuns == /\ EngineEnabled(Cur)
               /\ sm' = sm /\ clock' = clock /\ ex' = EngineApply(Cur).ex
               /\ resp' = [call |-> EngineCall, status |-> 200, types |-> {}, body |-> NoBody]
 
-(* the arguments of a malformed request do not matter: one call per action *)
+(* the full call space; MC_Api explores the calls that deviate from a plain valid call in at *)
+(* most MaxDevs arguments, and sends a malformed request body once per action               *)
 ApiNext ==
     \/ \E n \in Names, r \in CreateRoles, d \in CreateDefs, t \in Types, l \in Logs, b \in Bodies :
           CreateStateMachine(n, r, d, t, l, b)
